@@ -15,6 +15,9 @@ def run(ctx):
         from rules import timing as TM
         TM.wakeup_min(ctx, L.job, tag=L.tag + " ")
         TM.wakeup_cover(ctx, L)
+    from rules import dm14 as _D
+    ctx.rule("R-FORWARD-NAMES", "the ECU hands the configured pacing intervals and window to the data link layer under their own names", floor=2)
+    _D.forward_names(ctx, classes=("ElectronicControlUnit",))
     ctx.rule("R-GRANT-MIN", "CTS grant = min(own maximum, RTS window, remaining)", floor=6)
     ctx.rule("R-CTS-BORDER", "responder window bookkeeping is mutually consistent", floor=4)
     ctx.rule("R-DT-TYPESTATE", "DT only in a sending state entered by a non-zero CTS", floor=8)
